@@ -197,6 +197,13 @@ def generate(spec):
                  "T2": {"base": {"constants": {"k": 3.0}}, "alt": {"constants": {"drain": 0.25}}}}[template]
         case["config"]["model"]["managers"]["zzOther"] = other
         case["config"]["session_managers"] = [first, "zzOther"] if rng.random() < 0.5 else ["zzOther", first]
+        if rng.random() < 0.5:
+            # ... and a scenario that only ONE of the two managers owns takes part in the sessions
+            other["only"] = {"constants": {"constant": 6.0}} if template == "T1" else {"constants": {"k": 0.75}}
+            for inst_ in case["instances"]:
+                for o_ in inst_["ops"]:
+                    if o_["op"] == "begin":
+                        o_["scenarios"] = list(o_["scenarios"]) + ["only"]
     return case
 
 
